@@ -279,35 +279,29 @@ Qed.
 
 (* ---- the STRING branch ------------------------------------------------------------------------------ *)
 (* whatever the string is, the re-escaped text is the body of a literal that is closed
-   only by the quote the transpiler adds; with no carriage return it is exactly the body
-   of one well-terminated literal *)
-Lemma escape_ok st : forall k s, (List.length s <= k)%nat ->
-  negb st || negb (mem 13 s) = true -> lit_run st 34 false (escape_string s) = true.
+   only by the quote the transpiler adds, and exactly the body of one well-terminated
+   literal (newline and carriage return are both escaped) *)
+Lemma escape_ok_all st : forall k s, (List.length s <= k)%nat -> lit_run st 34 false (escape_string s) = true.
 Proof.
-  induction k as [|k IH]; intros s Hlen Hcr.
+  induction k as [|k IH]; intros s Hlen.
   - destruct s; [reflexivity|simpl in Hlen; lia].
   - destruct s as [|c r]; [reflexivity|]. simpl in Hlen.
-    assert (Hr : negb st || negb (mem 13 r) = true).
-    { destruct st; [|reflexivity]. simpl in *. apply negb_true_iff in Hcr.
-      apply orb_false_iff in Hcr as [_ Hcr]. rewrite Hcr. reflexivity. }
     simpl escape_string. destruct (N.eqb c 92) eqn:E92.
     + destruct r as [|a r'].
       * reflexivity.
-      * assert (Hr' : negb st || negb (mem 13 r') = true).
-        { destruct st; [|reflexivity]. simpl in *. apply negb_true_iff in Hr.
-          apply orb_false_iff in Hr as [_ Hr]. rewrite Hr. reflexivity. }
-        simpl in Hlen. destruct (N.eqb a 96) eqn:E96.
-        -- apply N.eqb_eq in E96. subst a. simpl. apply IH; [lia|exact Hr'].
-        -- simpl. apply IH; [lia|exact Hr'].
-    + destruct (N.eqb c 34) eqn:E34; [simpl; apply IH; [lia|exact Hr]|].
-      destruct (N.eqb c nl) eqn:E10; [simpl; apply IH; [lia|exact Hr]|].
-      simpl. rewrite E92, E34. unfold nl in E10. rewrite E10.
-      destruct (N.eqb c 13) eqn:E13.
-      * destruct st.
-        -- exfalso. simpl in Hcr. rewrite N.eqb_sym in E13. rewrite E13 in Hcr. discriminate.
-        -- simpl. apply IH; [lia|reflexivity].
-      * apply IH; [lia|exact Hr].
+      * simpl in Hlen. destruct (N.eqb a 96) eqn:E96.
+        -- apply N.eqb_eq in E96. subst a. simpl. apply IH; lia.
+        -- simpl. apply IH; lia.
+    + destruct (N.eqb c 34) eqn:E34; [simpl; apply IH; lia|].
+      destruct (N.eqb c nl) eqn:E10; [simpl; apply IH; lia|].
+      destruct (N.eqb c 13) eqn:E13; [simpl; apply IH; lia|].
+      simpl. rewrite E92, E34. unfold nl in E10. rewrite E10, E13. apply IH; lia.
 Qed.
+
+(* kept in this form for the lemmas stated before the carriage return was escaped *)
+Lemma escape_ok st : forall k s, (List.length s <= k)%nat ->
+  negb st || negb (mem 13 s) = true -> lit_run st 34 false (escape_string s) = true.
+Proof. intros k s Hlen _. exact (escape_ok_all st k s Hlen). Qed.
 
 Lemma escape_closed s : dq_body_closed (escape_string s) = true.
 Proof. apply (escape_ok false (List.length s) s (le_n _)). reflexivity. Qed.
@@ -315,8 +309,8 @@ Proof. apply (escape_ok false (List.length s) s (le_n _)). reflexivity. Qed.
 Lemma escape_strict s : mem 13 s = false -> dq_body_ok (escape_string s) = true.
 Proof. intro H. apply (escape_ok true (List.length s) s (le_n _)). simpl. rewrite H. reflexivity. Qed.
 
-Lemma escape_strict_cr_refuted : exists s, dq_body_ok (escape_string s) = false.
-Proof. exists [13]. reflexivity. Qed.
+Lemma escape_strict_all s : dq_body_ok (escape_string s) = true.
+Proof. apply (escape_ok_all true (List.length s) s (le_n _)). Qed.
 
 (* ---- identifiers ------------------------------------------------------------------------------------- *)
 Lemma keep_ident allowed name : forallb ident_char allowed = true -> ident_ok (keep allowed name) = true.
